@@ -483,6 +483,7 @@ func cmdDump(argv []string) int {
 	ssaDump := fs.Bool("ssa", false, "print SSA")
 	safety := fs.Bool("safety", false, "enable safety obligations")
 	solve := fs.Bool("solve", false, "solve obligations")
+	parts := fs.Bool("parts", false, "one obligation per program point (to locate a failing part)")
 	fs.Parse(argv)
 	eng, err := loadEngine(*repo, filepath.Join(*verif, "contracts", "trusted"))
 	if err != nil {
@@ -502,6 +503,7 @@ func cmdDump(argv []string) int {
 		}
 		e := eng.newFEnc(f, *prop)
 		e.safety = *safety
+		e.splitParts = *parts
 		e.checked = e.fc != nil && hasFunctional(e.fc)
 		func() {
 			defer func() {
